@@ -9,11 +9,19 @@ Streams
   linecode Model.Names.getLineCode vs BaseName.get_line_code(before, after)
   names    (C-model) Script.get_names(flags) vs Model.Names.scriptNames fed with the parser's
            used-names index
+  nameshist (C-model over histories) 8-12 get_names calls with repeated flags on ONE Script vs
+           Model.Names.namesHistory (the memo of the callee `Script._names` iterates over, as the
+           translator found it)
   results  (B) every Name / Completion / Signature returned by the query methods on generated
            programs: text at (line, column) == name, definition range encloses it, get_line_code()
            is that very line  (direct oracle on the real API)
   tokens   (C) get_names(all_scopes, definitions, references) vs Python's tokenize (every
            identifier token exactly once) and is_definition() vs ast binding contexts
+  history  (B + C over histories, props/c17_hist.py) sequences of queries with repetition on ONE
+           Script object (get_names with all 8 flag combinations, search, complete_search, goto, infer,
+           help, get_references, get_context, get_signatures, complete, get_syntax_errors, and methods of
+           the returned Names): after every call the position clauses for every returned object and
+           the tokenize / ast oracle for every get_names answer
 """
 import ast
 import io
@@ -29,7 +37,7 @@ from gen import api_walk, texts
 from props.c01 import raw_lines, load_local_known, exc_key
 
 MODELS = ['Names', 'ParsoPos']
-MODEL_TARGETS = ['JediModel.Lemmas.Tree', 'JediModel.Model.Names', 'JediModel.Model.ParsoPos']
+MODEL_TARGETS = ['JediModel.Lemmas.Tree', 'JediModel.Model.Names', 'JediModel.Lemmas.Names', 'JediModel.Model.ParsoPos']
 MANIFEST = dict(
     text='Theorems over Model.Text/Model.Tree: join(splitLines s) = s, splitLines s is never empty, the shape of '
          'every line (only \\n, \\r\\n and a lone \\r terminate a line), leaf_at_position (for every CRLF-safe tree '
@@ -37,8 +45,17 @@ MANIFEST = dict(
          'followed by the rest of the file), positions count lines and code points, which characters start a new '
          'line, get_line_code() is the line the leaf stands on and the value stands at the reported column, '
          'get_names enumerates every indexed name once, sorted by position, definitions and references partition '
-         'it. parso-level statement is partial (byte order mark, kernel-checked counter-witness, known finding). '
-         'Tie: translator (position source, line lookup, sort key, def/ref filter) + correspondence on parso trees.',
+         'it. Histories on ONE Script (Model.Names.namesHistory: the memo of the callee Script._names iterates over): '
+         'names_history_faithful - every enumeration of every history (any flags, repetitions, order) answers like the '
+         'first one of a fresh Script unless a one-shot iterator is remembered; names_history_faithful_source / '
+         'names_history_every_token_once for the source as the translator finds it (callee, its decorators, does it '
+         'return filter/map/a generator - followed through jedi/); kernel-checked counter-witnesses for a memoised '
+         'filter object (second call empty for every program, other flags undisturbed); api_memo_values_replayable / '
+         'api_attributes_replayable: no memo decorator and no attribute in jedi/api/ keeps a one-shot iterator '
+         '(translator tables over jedi/api/**/*.py). '
+         'parso-level statement is partial (byte order mark, kernel-checked counter-witness, known finding). '
+         'Tie: translator (position source, line lookup, sort key, def/ref filter, name source, memo tables) + '
+         'correspondence on parso trees and on enumeration histories.',
     note='Modelled not verified: parso tokenizer (enters as the dumped leaves; its position law and CRLF-safety '
          'are re-checked on every dumped tree), which names parso indexes (checked against tokenize/ast by stream '
          'tokens - a test).',
@@ -194,9 +211,16 @@ def check_result_object(ctx, script_path, text, method, n, stats):
         mp = n.module_path
         ds, de = n.get_definition_start_position(), n.get_definition_end_position()
         code = n.get_line_code()
+        kwarg = type(n).__name__ == 'Completion' and name.endswith('=') and n.type == 'param'
     except Exception as e:
         stats['raised'] = stats.get('raised', 0) + 1     # totality is C01's statement
         return
+    if kwarg:
+        # a keyword-argument completion (`foo(ba` -> `bar=`, jedi/api/completion.py:ParamNameWithEquals):
+        # `.name` is the text that is inserted - the parameter's identifier plus the `=` decoration (upstream's
+        # own tests expect `abc=`); the object points at the parameter, whose name is the identifier
+        name = name[:-1]
+        stats['kwarg_completion'] = stats.get('kwarg_completion', 0) + 1
     if line is None or col is None:
         stats['nopos'] = stats.get('nopos', 0) + 1
         return
@@ -306,6 +330,18 @@ def stream_linecode_names(ctx, reqs):
                 impl = n.get_line_code(before=b, after=af)
                 reqs.append({'op': 'linecode', 'text': text, 'line': n.line, 'before': b, 'after': af})
                 cases.append((('linecode', text, n.line, b, af), impl))
+            # a history of enumerations on this ONE Script (it has answered 6 of them already, so the model
+            # is asked for the whole history): Model.Names.namesHistory with the translator's name source
+            asked = [(True, True, True), (False, True, False), (True, False, True), (False, True, True),
+                     (True, True, False), (True, True, True)]
+            more = [rng.choice(asked + [(False, False, True), (True, False, False), (False, False, False)])
+                    for _ in range(rng.randint(2, 6))]
+            impl = []
+            for (a, d, r) in more:
+                impl.append([[n.line, n.column, n.name, n.is_definition()]
+                             for n in script.get_names(all_scopes=a, definitions=d, references=r)])
+            reqs.append({'op': 'nameshist', 'occs': occs, 'flags': [list(f) for f in asked + more]})
+            cases.append((('nameshist', text, tuple(asked), tuple(more)), impl))
         except Exception as e:
             ctx.count('raised', (text,), nontrivial=False, bucket='%s@%s' % exc_key(e))
     return cases
@@ -356,20 +392,7 @@ def binding_tokens(text):
     return binds
 
 
-EXTRA_STMTS = ['{n}, {m} = {e}, {e}', '{n} += {e}', '{n}: int = {e}', 'for {n}, {m} in {e}:\n    pass', 'del {n}',
-               'with {e} as {n}:\n    {n}', '({n} := {e})', '[{n} for {n} in {e}]', '{n}.{m} = {e}', '{n}[0] = {e}',
-               'import os.path', 'import os.path as {n}', 'from os import path as {n}, sep', 'global {n}',
-               '{n} = {m} = {e}', 'print({n}={e})', 'lambda {n}, *{m}: {n}', '*{n}, {m} = {e}', '{n} = {n}.{m}.{n}']
-
-
-def token_program(rng):
-    lines = texts.program(rng)
-    for _ in range(rng.randint(1, 4)):
-        t = rng.choice(EXTRA_STMTS)
-        s = t.format(n=texts.ident(rng), m=texts.ident(rng), e=texts.expr(rng, []))
-        lines.insert(rng.randint(0, len(lines)), s) if not lines or not any(l.startswith(' ') for l in lines) \
-            else lines.append(s)
-    return '\n'.join(lines) + ('\n' if rng.random() < 0.7 else '')
+from gen.c17_histories import EXTRA_STMTS, token_program   # noqa: E402 (shared with stream `history`)
 
 
 def stream_tokens(ctx):
@@ -422,6 +445,18 @@ def stream_known(ctx):
     stats = {}
     for n in jedi.Script(src, path=path).get_names(all_scopes=True, definitions=True, references=True):
         check_result_object(ctx, path, src, 'get_names', n, stats)
+    # keyword-argument completions (`a=`, `bar=`): judged by the identifier they point at, in every tier
+    for src, line, col in (('def baz(bar, a, **kw):\n    return bar\nbaz(a=\n', 3, 5),
+                           ('def baz(bar, a, **kw):\r\n    return bar\r\nbaz(ba', 3, 6),
+                           ('class C:\n    def m(self, \u00e9t\u00e9, *, key=1):\n        pass\nC().m(', 4, 6)):
+        try:
+            comps = jedi.Script(src, path=path).complete(line, col)
+        except Exception:
+            comps = []
+        for c in comps:
+            if c.name.endswith('='):
+                check_result_object(ctx, path, src, 'complete', c, stats)
+    ctx.notes.append('keyword-argument completions probed: %d' % stats.get('kwarg_completion', 0))
 
 
 # ------------------------------------------------------------------ compare
@@ -442,6 +477,19 @@ def compare(ctx, cases, answers):
                 if impl != want:
                     ctx.fail('linecode', 'get_line_code(before, after) is not the requested lines',
                              {'source': text, 'line': line, 'before': b, 'after': af}, expected=want, observed=impl)
+        elif stream == 'nameshist':
+            _, text, asked, more = key
+            ctx.count('nameshist', key, nontrivial=any(impl), bucket='len=%d' % (len(asked) + len(more)))
+            model = [[list(x) for x in a] for a in ans][len(asked):]
+            if model != impl:
+                ctx.tie_broken('correspondence:nameshist', short({'source': text, 'flags': asked + more,
+                                                                  'impl': impl[:3], 'model': model[:3]}, 900))
+                from props import c17_hist
+                ops = [{'op': 'get_names', 'all_scopes': a, 'definitions': d, 'references': r} for (a, d, r) in asked + more]
+                r_ = c17_hist.run_history(text, ops, 'nameshist')
+                for f in r_['fails'][:1]:
+                    c17_hist.judge_record(ctx, {'text': text, 'family': 'nameshist', 'labels': [], 'results': [],
+                                                'raised': {}, 'fails': [dict(f, history=ops[:f['step'] + 1])]})
         elif stream == 'names':
             _, text, flags = key
             ctx.count('names', key, nontrivial=len(impl) > 0, bucket='flags=%s' % (flags,))
@@ -479,6 +527,9 @@ def run_driver_chunks(pid, reqs, jobs=6):
 
 def run(ctx):
     load_local_known(ctx, 'C17')
+    from props import c17_hist
+    hist_job = c17_hist.Job(ctx)          # fresh-interpreter workers, concurrent with the streams below
+    c17_hist.corpus_cases(ctx)
     reqs = []
     cases = []
     import time
@@ -496,6 +547,8 @@ def run(ctx):
     lap('tokens')
     stream_results(ctx)
     lap('results')
+    hist_job.finish(ctx)
+    lap('history (waiting for the workers)')
     if ctx.model_ok:
         answers = run_driver_chunks('C17', reqs)
         lap('driver')
@@ -513,6 +566,13 @@ def run(ctx):
         'a Name without tree name (a module: reported as (1, 0), the file itself) denotes no token and is not judged',
         'which identifiers parso indexes (get_used_names) is compared with tokenize / ast on generated valid programs - a test',
         'lone surrogates are outside the model and the generators',
+        'the state of a Script between two queries is modelled for the name enumeration only (the memo of the callee '
+        '_names iterates over); whether a remembered value is a one-shot iterator is decided syntactically by the '
+        'translator (generator function, returned generator expression / map / filter / zip / chain, followed through '
+        'the jedi functions it returns and through local names); state kept by other means is seen by stream '
+        '`history` only - a test',
+        'stream history: get_names with all_scopes=False is judged by sound bounds (nothing from inside a def / class / '
+        'lambda body, at least the names of the top-level statements), exactly for all_scopes=True',
     ]
 
 
@@ -520,6 +580,9 @@ def replay(ctx, payload):
     import jedi
     inp = payload['input']
     print('input:', json.dumps(inp, ensure_ascii=True))
+    if 'history' in inp:
+        from props import c17_hist
+        return c17_hist.replay(ctx, inp, payload)
     if 'text' in inp:
         import parso
         leaves, zero = dump_leaves(parso.parse(inp['text']))
